@@ -587,4 +587,77 @@ func checkDecodedPadConsistent(c *Ctx, r *Report) {
 		return
 	}
 	r.Check(ok, name+"|pad", fn.Pos(), fmt.Sprintf("%d authenticated success paths: pad read off the wire on %d, computed consistently on %d", nAuth, nAuth-nComputed, nComputed), whyNot)
+
+	// a scan finds every pad the serialiser writes (it writes whatever uint8 the value carries)
+	// only if nothing but the end of the data and the first byte that is not 0xFF ends it
+	loops := 0
+	for _, l := range naturalLoops(fn) {
+		var exits []*ssa.If
+		scans := false
+		for b := range l.Blocks {
+			if len(b.Instrs) == 0 {
+				continue
+			}
+			br, isIf := b.Instrs[len(b.Instrs)-1].(*ssa.If)
+			if !isIf || (l.Blocks[b.Succs[0]] && l.Blocks[b.Succs[1]]) {
+				continue
+			}
+			exits = append(exits, br)
+			if bo, isBin := br.Cond.(*ssa.BinOp); isBin && (isConstVal(bo.X, 0xFF) || isConstVal(bo.Y, 0xFF)) {
+				scans = true
+			}
+		}
+		if !scans {
+			continue
+		}
+		loops++
+		bad := ""
+		for _, br := range exits {
+			bo, isBin := br.Cond.(*ssa.BinOp)
+			if !isBin {
+				bad = "a condition that is not a comparison"
+				continue
+			}
+			if isConstVal(bo.X, 0xFF) || isConstVal(bo.Y, 0xFF) || derivesFromLen(bo.X, 6) || derivesFromLen(bo.Y, 6) {
+				continue
+			}
+			bad = "the comparison " + bo.X.Name() + " " + bo.Op.String() + " " + bo.Y.Name() + ", which involves neither the data's length nor 0xFF"
+		}
+		r.Check(bad == "", name+"|pad scan ends only at the data's end or a non-0xFF byte", l.Header.Instrs[0].Pos(), fmt.Sprintf("%d loop exits, each on len(data) or on the byte read", len(exits)), "the scan over the 0xFF pad bytes is also ended by "+bad+": a longer pad, which the serialiser writes for a value that carries one, is not found again and the AuthCode is read from the wrong offset")
+	}
+	if loops == 0 {
+		r.OK(name+"|pad scan ends only at the data's end or a non-0xFF byte", fn.Pos(), "no scan loop in the decoder (pad computed; see above)")
+	}
+}
+
+func isConstVal(v ssa.Value, k int64) bool {
+	if cv, ok := v.(*ssa.Convert); ok {
+		v = cv.X
+	}
+	n, ok := constInt(v)
+	return ok && n == k
+}
+
+// derivesFromLen: v is len(x), or arithmetic on it.
+func derivesFromLen(v ssa.Value, depth int) bool {
+	if depth == 0 {
+		return false
+	}
+	switch x := v.(type) {
+	case *ssa.Call:
+		if b, ok := x.Call.Value.(*ssa.Builtin); ok && b.Name() == "len" {
+			return true
+		}
+	case *ssa.BinOp:
+		return derivesFromLen(x.X, depth-1) || derivesFromLen(x.Y, depth-1)
+	case *ssa.Convert:
+		return derivesFromLen(x.X, depth-1)
+	case *ssa.Phi:
+		for _, e := range x.Edges {
+			if derivesFromLen(e, depth-1) {
+				return true
+			}
+		}
+	}
+	return false
 }
